@@ -679,6 +679,8 @@ def run_newton_loop(case):
     out = []
     try:
         sp = LoopSplit(mf._matrix_inverse_root_newton)
+        if sp.shape != (False, 0):
+            raise LookupError(f"the loop of _matrix_inverse_root_newton has control-flow shape (else clause, breaks) = {sp.shape}, the loop contract was written for (False, 0)")
     except LookupError as e:
         return [result(f"{func}/loop-contract-applicable[{case}]", func, "unknown", text=str(e), case=case)]
     out.append(result(f"{func}/loop-split-tiles-the-function[{case}]", func, "discharged", backend="ast", case=case, text=str(sp.describe())))
@@ -796,6 +798,8 @@ def run_higher_loop(case):
     out = []
     try:
         sp = LoopSplit(mf._matrix_inverse_root_higher_order)
+        if sp.shape != (True, 0):
+            raise LookupError(f"the loop of _matrix_inverse_root_higher_order has control-flow shape (else clause, breaks) = {sp.shape}, the loop contract was written for (True, 0)")
     except LookupError as e:
         return [result(f"{func}/loop-contract-applicable[{case}]", func, "unknown", text=str(e), case=case)]
     out.append(result(f"{func}/loop-split-tiles-the-function[{case}]", func, "discharged", backend="ast", case=case, text=str(sp.describe())))
@@ -960,6 +964,8 @@ def run_qr_loop(case):
     out = []
     try:
         sp = LoopSplit(mf._compute_orthogonal_iterations)
+        if sp.shape != (False, 0):
+            raise LookupError(f"the loop of _compute_orthogonal_iterations has control-flow shape (else clause, breaks) = {sp.shape}, the loop contract was written for (False, 0)")
     except LookupError as e:
         return [result(f"{func}/loop-contract-applicable[{case}]", func, "unknown", text=str(e), case=case)]
     out.append(result(f"{func}/loop-split-tiles-the-function[{case}]", func, "discharged", backend="ast", case=case, text=str(sp.describe())))
